@@ -58,7 +58,7 @@ TrackOK(t0, t1, old, new, published) ==
 PosOK(old, new, par, rep) ==
   LET t == IF par = 0 THEN [old EXCEPT !.even = rep] ELSE [old EXCEPT !.odd = rep] IN
   IF t.even.some = 0 \/ t.odd.some = 0
-  THEN new = [t EXCEPT !.n = new.n]                                   \* stored, nothing else changes
+  THEN [new EXCEPT !.track = old.track] = [t EXCEPT !.n = new.n]       \* stored, nothing else changes (the track: TrackStepOK)
   ELSE \E latestOdd \in {0, 1} :
          LET c == CandOf(t.even, t.odd, latestOdd)
              mayPublish == /\ c.some = 1
@@ -71,11 +71,9 @@ PosOK(old, new, par, rep) ==
                /\ new.pos.some = 1 /\ PosClose(new.pos, c)
                /\ new.even = t.even /\ new.odd = t.odd
                /\ new.dist.some = 1 /\ DistOK(new.dist.m, rx, new.pos, 5 + new.dist.m \div 1000000)
-               /\ TrackOK(old.track, new.track, old, new, TRUE)
                /\ new.cs = old.cs /\ new.vel = old.vel
             \/ /\ mayClear
                /\ new.pos = NoPos /\ new.dist = NoDist /\ new.even = NoRep /\ new.odd = NoRep
-               /\ TrackOK(old.track, new.track, old, new, FALSE)
                /\ new.cs = old.cs /\ new.vel = old.vel
 
 \* components of a record that changed although the frame's payload does not carry them
@@ -85,6 +83,12 @@ Changed(old, new, allowed) ==
   \cup (IF "pos" \notin allowed /\ (new.even # old.even \/ new.odd # old.odd \/ new.pos # old.pos \/ new.dist # old.dist)
         THEN {"changed_position"} ELSE {})
   \cup (IF "pos" \notin allowed /\ new.track # old.track THEN {"changed_track"} ELSE {})
+
+\* the track after a position report (C14): a publication appends the superseded position, nothing else touches it
+TrackStepOK(old, new, par, rep) ==
+  LET t == IF par = 0 THEN [old EXCEPT !.even = rep] ELSE [old EXCEPT !.odd = rep] IN
+  IF t.even.some = 0 \/ t.odd.some = 0 THEN new.track = old.track
+  ELSE TrackOK(old.track, new.track, old, new, new.pos.some = 1)
 
 \* which parts of a record an ES frame may change, by payload
 RecDiff(old, new, b) ==
@@ -104,6 +108,7 @@ RecDiff(old, new, b) ==
                                        alt |-> IF e.f = 0 THEN new.even.alt ELSE new.odd.alt]
                                stored == IF e.f = 0 THEN new.even ELSE new.odd
                            IN (IF PosOK(old, new, e.f, rep) THEN {} ELSE {"position"})
+                              \cup (IF TrackStepOK(old, new, e.f, rep) THEN {} ELSE {"track"})
                               \cup (IF stored.some = 0 \/ stored.alt \in alt THEN {} ELSE {"altitude"})
         [] OTHER -> Changed(old, new, {}))
 
@@ -154,7 +159,7 @@ SerdeDiff(ev) ==
 OwnerOf(f) ==
   CASE f \in {"n", "added", "tracked_set", "isolation", "other_format_changed_state", "duplicate_record", "record_missing", "untouched"} -> "C12"
     [] f \in {"position", "changed_position"} -> "C13"
-    [] f \in {"cs", "heading", "speed", "vrate", "altitude", "changed_cs", "changed_vel", "changed_track", "dist_iff_pos", "all_position", "details", "details_missing",
+    [] f \in {"cs", "heading", "speed", "vrate", "altitude", "changed_cs", "changed_vel", "changed_track", "track", "dist_iff_pos", "all_position", "details", "details_missing",
               "display", "pos_without_pair"} -> "C14"
     [] f \in {"expired_set", "survivor_changed"} -> "C15"
     [] f \in {"serde_failed", "serde_roundtrip"} -> "C20"
